@@ -139,6 +139,8 @@ def denote(n):
         return False
     if txt == 'nil':
         return NIL
+    if txt == '{}':
+        return []      # Data has no empty container; the datamodel hands an empty table over as the interpreted expression {} (since the fix of getLuaAsData)
     q = parse_number(txt)
     if q is not None:
         return q
